@@ -33,7 +33,7 @@ def L():
 def jobs(tier):
     out = []
     q = tier == "quick"
-    sigs = [([(0, 0), (1, 0)], [(1, 0), (0, 0)]), ([(1, 0)], [(0, 1), (0, 0)]), ([(0, 1), (0, 0)], [(1, 0)])]
+    sigs = [([(0, 0), (1, 0)], [(1, 0), (0, 0)]), ([(1, 0)], [(0, 1), (0, 0)]), ([(0, 1), (0, 0)], [(1, 0)]), ([(0, 1), (1, 1)], [(1, 1), (0, 1)])]
     if not q:
         sigs += [([(1, 1), (0, 0)], [(1, 0), (1, 1)]), ([(2, 0)], [(0, 0), (1, 0)])]
     opts = [dict(stride=1, padding=None, ldil=None, rdil=1, flags=True), dict(stride=1, padding="SAME", ldil=None, rdil=2, flags=[True, False, True]),
@@ -76,7 +76,8 @@ def ob_defining_sum(D, sin, sout, opt):
     arr.ENUM_SMALL[0] = 3
     W = World(D)
     sin, sout = [tuple(k) for k in sin], [tuple(k) for k in sout]
-    ftypes = sorted({(a[0] + b[0], (a[1] + b[1]) % 2) for a in sin for b in sout} - {(0, 1)})   # a bank without pseudoscalar filters
+    ftypes = sorted(({(a[0] + b[0], (a[1] + b[1]) % 2) for a in sin for b in sout} | {(a[0] + b[0], 1 - (a[1] + b[1]) % 2) for a in sin for b in sout})
+                    - {(0, 1)})   # both parities of every reachable order, but no pseudoscalar filters (as for M=3)
     bank, fblocks, nf = _bank(G, D, W, ftypes)
     isig, ich = _sig(G, sin, W, "ci")
     osig, och = _sig(G, sout, W, "co")
